@@ -1,11 +1,12 @@
 #!/bin/sh
-# usage: tools/soak.sh <outdir> <tier> <seed>...   - every registered check once per seed; prints only non-clean results
+# usage: [SOAK_IDS="C04 C05"] [SOAK_BUDGET=500] tools/soak.sh <outdir> <tier> <seed>...
+# every registered check (or SOAK_IDS) once per seed; one summary line per run on stdout
 out=$1; tier=$2; shift 2
 cd "$(dirname "$0")/.."
-ids=$(python3 -c "import json;print(' '.join(c['property_id'] for c in json.load(open('MANIFEST.json'))['checks']))")
+ids=${SOAK_IDS:-$(python3 -c "import json;print(' '.join(c['property_id'] for c in json.load(open('MANIFEST.json'))['checks']))")}
 for s in "$@"; do
   for c in $ids; do
-    VERIF_SEED=$s ./check $c --tier $tier > "$out/$c.$tier.$s.out" 2>/dev/null
+    VERIF_SEED=$s ./check $c --tier $tier ${SOAK_BUDGET:+--budget $SOAK_BUDGET} > "$out/$c.$tier.$s.out" 2>/dev/null
     rc=$?
     tail -1 "$out/$c.$tier.$s.out" | sed "s/^/seed=$s rc=$rc /"
   done
